@@ -7,6 +7,7 @@ VERIF = os.path.dirname(os.path.dirname(os.path.abspath(__file__)))
 args = [a for a in sys.argv[1:] if not a.startswith("--")]
 own = "--own" in sys.argv
 BASE = "refactors" if "--refactors" in sys.argv else "seeded"      # refactors: behaviour-preserving edits, every check must stay silent
+BASE = ([a.split("=", 1)[1] for a in sys.argv if a.startswith("--base=")] or [BASE])[0]   # --base=/abs/dir: candidates not imported yet (<id>/patch.diff, meta.json)
 ids = args or sorted(os.path.basename(p) for p in glob.glob(os.path.join(VERIF, BASE, "*-*")))
 props = sorted(os.path.basename(p)[:-3] for p in glob.glob(os.path.join(VERIF, "rules", "C*.py")))
 only_checks = [a.split("=", 1)[1].split(",") for a in sys.argv if a.startswith("--checks=")]
